@@ -32,6 +32,9 @@ VertexIndex G_P, G_Q;
 bg_scratch_row_t bg_scratch_row;
 struct bg_adj *bg_cur_adj;
 bg_ghost_frontier_t bg_ghost_frontier;
+bg_ghost_lookup_t bg_ghost_lookup;
+bg_size bg_scratch_sz;
+bg_vec_sz bg_scratch_vec_sz;
 bg_scratch_val_VLabel_t bg_scratch_val_VLabel;
 bg_scratch_val_NoLabel_t bg_scratch_val_NoLabel;
 bg_scratch_val_uint_t bg_scratch_val_uint;
